@@ -755,15 +755,14 @@ peg::parser! {
                 BraceExpressionMember::CharSequence { start, end, increment: increment.unwrap_or(1) }
             }
 
-        rule number() -> i64 = sign:number_sign()? n:$(['0'..='9']+) {
-            let sign = sign.unwrap_or(1);
-            let num: i64 = n.parse().unwrap();
-            num * sign
+        // N.B. A number that doesn't fit (e.g., 9223372036854775808) is not a number as far
+        // as brace expansion is concerned; the text is then left unexpanded.
+        rule number() -> i64 = n:$(number_sign()? ['0'..='9']+) {?
+            n.parse::<i64>().or(Err("number"))
         }
 
-        rule number_sign() -> i64 =
-            ['-'] { -1 } /
-            ['+'] { 1 }
+        rule number_sign() =
+            ['-' | '+']
 
         rule character() -> char = ['a'..='z' | 'A'..='Z']
 
